@@ -153,6 +153,23 @@ class Summariser:
         """hook: `return f(args)` where f is to be inlined -> list of finished paths, or None"""
         return None
 
+    def inline_value(self, fn, n, p, g, make_sub):
+        """evaluate a call to g (body available, single path) as a sub-expression"""
+        syms = {}
+        for pid, a in zip(g.params, n.get('args', [])):
+            syms[pid] = self.expr(fn, a, p)
+        sub = make_sub(g, syms)
+        q = p.fork()
+        q.returned = False
+        q.ret = None
+        res = sub.stmt(g, g.raw['body'], [q])
+        if len(res) != 1:
+            raise Unrecognised('branching callee %s used as a sub-expression' % g.qn)
+        r = res[0]
+        p.value, p.value_written, p.ref_writes = r.value, r.value_written, r.ref_writes
+        p.effects = r.effects
+        return r.ret
+
     def read(self, fn, lv, p):
         if lv == ('value',):
             return p.value
@@ -207,7 +224,8 @@ class Summariser:
                 self.expr(fn, a, p)
                 return self.expr(fn, b, p)
             if op in ('&&', '||'):
-                raise Unrecognised('short-circuit operator at %s' % fn.loc(n))
+                # operands of the analysed predicates are side-effect free reads
+                return ('op', op, self.expr(fn, a, p), self.expr(fn, b, p))
             return norm(('op', op, self.expr(fn, a, p), self.expr(fn, b, p)))
         if k == 'CompoundAssignOperator':
             op = n['op'][:-1]
